@@ -29,6 +29,7 @@ MANIFEST = {
     "`start <= x <= end` and the statement say); the correspondence is sampling (exhaustive on the small grid in the thorough tier).",
     "technique": "Lean 4 proof over a hand-written model + differential correspondence with span.py",
     "design_ref": "DESIGN.md §5 C30",
+    "ready": True,
 }
 UNMODELLED = ["to_span (AST -> Span), SourceMap, shift_left/shift_right, __len__"]
 
